@@ -118,6 +118,7 @@ class Engine:
         ob.props = fr.contract.props
         ob.fuel = fr.contract.fuel
         ob.solver_opts = fr.contract.solver_opts
+        ob.tactic = fr.contract.tactic if expect == 'valid' else None
         self.obligs.append(ob)
         info = self.functions[fr.contract.target]
         info['kinds'][kind] = info['kinds'].get(kind, 0) + 1
@@ -203,7 +204,8 @@ class Engine:
                 kind, payload = 'return', NONE
             if kind == 'return':
                 n_ret += 1
-                self.check_post(fr, s, payload, fn.end_lineno if payload is NONE else getattr(payload, '_lineno', fn.end_lineno))
+                rl = s.env.get('__return_line')
+                self.check_post(fr, s, payload, rl.v if isinstance(rl, SInt) and rl.concrete else fn.end_lineno)
             elif kind == 'raise':
                 self.check_raise(fr, s, payload)
             else:
@@ -319,6 +321,7 @@ class Engine:
 
     def stmt_Return(self, node, s, fr):
         v = NONE if node.value is None else self.eval(node.value, s, fr)
+        s.env['__return_line'] = SInt(node.lineno)
         return [('return', s, v)]
 
     def stmt_Raise(self, node, s, fr):
